@@ -107,6 +107,26 @@ def run(ctx: Ctx) -> Result:
             f2 = flag ^ (1 << rng.randrange(8))
             if (f2 & ~allowed & 0xff) == 0 and ref_msg(cache, f2) != msg and f2:
                 cases.append(('wrong flag byte', cfg, cache, P(sig + bytes([f2])) + P(pk) + op('CHECK_SIG') + bytes([allowed]), 'F'))
+    # embedder item limits other than the default: the message is built under the *configured* limit by SIGN, GET_MESSAGE
+    # and CHECK_SIG alike (a message longer than the limit is an error everywhere, a shorter one is signed and checked)
+    for _ in range(ctx.n(60, 600)):
+        lim = rng.choice([65, 100, 1500, 4096])
+        c2 = vmrun.Cfg(); c2.max_item_size = lim
+        total = rng.choice([lim - 1, lim, lim + 1, lim // 2, min(lim + 400, 5000), 1025 if lim > 1025 else lim - 3])
+        nf = rng.randrange(1, 4); idx = sorted(rng.sample(range(1, 9), nf))
+        cuts = sorted(rng.randrange(0, total + 1) for _ in range(nf - 1))
+        lens = [b_ - a_ for a_, b_ in zip([0] + cuts, cuts + [total])]
+        cache = {f'sigfield{i}': V.rbytes(rng, n_) for i, n_ in zip(idx, lens)}
+        flag = 0
+        ki = rng.randrange(len(keys.sks)); sk, pk, seed = keys.sks[ki], keys.pks[ki], keys.seeds[ki]
+        msg = ref_msg(cache, flag); sig = sk.sign(msg).signature
+        fits = len(msg) <= lim
+        cases.append(('limits: CHECK_SIG honest', c2, cache, P(sig) + P(pk) + op('CHECK_SIG') + b'\x00', 'T' if fits else 'ERR'))
+        cases.append(('limits: SIGN then CHECK_SIG', c2, cache, P(seed) + op('SIGN') + b'\x00' + P(pk) + op('CHECK_SIG') + b'\x00', 'T' if fits else 'ERR'))
+        cases.append(('limits: GET_MESSAGE', c2, cache, op('GET_MESSAGE') + b'\x00', ('stack', (msg.hex() or 'e')) if fits else 'ERR'))
+        if fits and len(msg):
+            i = rng.choice([j for j in idx if len(cache[f'sigfield{j}'])]); c3 = dict(cache); c3[f'sigfield{i}'] = flip(cache[f'sigfield{i}'], rng)
+            cases.append(('limits: corrupt covered field', c2, c3, P(sig) + P(pk) + op('CHECK_SIG') + b'\x00', 'F'))
     # wrong lengths: error, never true
     sk, pk = keys.sks[0], keys.pks[0]
     sig = sk.sign(b'').signature
